@@ -14,6 +14,7 @@ from base64 import (
     b64encode,
 )
 from copy import deepcopy
+from decimal import Decimal
 from datetime import (
     datetime,
     timedelta,
@@ -1597,9 +1598,9 @@ class Message(ABC):
                     )
                 elif sub_cls == timedelta:
                     value = (
-                        [timedelta(seconds=float(item[:-1])) for item in value]
+                        [_Duration.delta_from_json(item) for item in value]
                         if isinstance(value, list)
-                        else timedelta(seconds=float(value[:-1]))
+                        else _Duration.delta_from_json(value)
                     )
                 elif not meta.wraps:
                     value = (
@@ -2004,12 +2005,22 @@ class _Duration(Duration):
         return timedelta(seconds=self.seconds, microseconds=self.nanos / 1e3)
 
     @staticmethod
-    def delta_to_json(delta: timedelta) -> str:
-        parts = str(delta.total_seconds()).split(".")
-        if len(parts) > 1:
-            while len(parts[1]) not in (3, 6, 9):
-                parts[1] = f"{parts[1]}0"
-        return f"{'.'.join(parts)}s"
+    def delta_to_json(
+        delta: timedelta, *, _1_microsecond: timedelta = timedelta(microseconds=1)
+    ) -> str:
+        # Decimal seconds with 3 or 6 fractional digits, computed with
+        # integers (str(float) gives "1e-06" and rounds beyond 2**53 us).
+        total_us = delta // _1_microsecond
+        sign = "-" if total_us < 0 else ""
+        seconds, us = divmod(abs(total_us), 10**6)
+        if us % 1000 == 0:
+            return f"{sign}{seconds}.{us // 1000:03d}s"
+        return f"{sign}{seconds}.{us:06d}s"
+
+    @staticmethod
+    def delta_from_json(value: str) -> timedelta:
+        # Exact decimal arithmetic; digits below a microsecond are dropped.
+        return timedelta(microseconds=int(Decimal(value[:-1]) * 10**6))
 
 
 class _Timestamp(Timestamp):
